@@ -6,6 +6,8 @@ import (
 	"encoding/json"
 	"fmt"
 	"strings"
+
+	"github.com/elnosh/gonuts/wallet"
 )
 
 // C08 — unlinkability: the mint never receives a blinding factor. Byte-level taint check on every
@@ -23,6 +25,11 @@ func coreC08(tier string) []RunSpec {
 			out = append(out, RunSpec{Profile: "core:path:" + wwKinds[pi], Params: map[string]int{"path": pi, "legacy": legacy}})
 		}
 		out = append(out, RunSpec{Profile: "core:path:restore", Params: map[string]int{"path": 100, "legacy": legacy}})
+		for k := 1; k <= 4; k++ {
+			for fk := 0; fk < 2; fk++ {
+				out = append(out, RunSpec{Profile: "core:melt-retry-after-lost-message", Params: map[string]int{"meltretry": 1, "k": k, "fk": fk, "legacy": legacy}})
+			}
+		}
 		// SIG_ALL P2PK token from an untrusted mint received with swap-to-trusted: the wallet first
 		// swaps at the untrusted mint and melts the fresh proofs there
 		for k := 0; k < 2; k++ {
@@ -201,6 +208,22 @@ func runC08(rc *RunCtx) {
 		ww.StepMint()
 	}
 	scanned := ww.ScanRequests(0)
+	if rc.P("meltretry", 0) == 1 {
+		w := ww.Wallets[0]
+		ww.step = 0
+		ww.faultOp(w, "melt", rc.P("k", 1), []string{"resploss", "reqloss"}[rc.P("fk", 0)])
+		if qs := ww.PendQ[w]; len(qs) > 0 {
+			qid := qs[len(qs)-1]
+			ww.op("w.remelt after lost message")
+			ww.W.WalletOp(w, ww.name("remelt."+w), nil, func(wl *wallet.Wallet) { wl.Melt(qid) })
+			rc.S.Probe("c08_melt_fault_then_retry")
+		}
+		ww.Settle()
+		ww.ScanRequests(scanned)
+		ww.positiveControl()
+		rc.Nontrivial = rc.S.Stats["c08_spend_request_scanned"] > 0
+		return
+	}
 	if rc.P("sigallcross", 0) == 1 {
 		c17SigAllCrossMint(ww, uint64(16+16*rc.P("k", 0)))
 		ww.Settle()
@@ -228,6 +251,19 @@ func runC08(rc *RunCtx) {
 					ww.StepSendLocked()
 				}
 				ww.Step(path)
+			}
+		} else if T.Chance("meltretry", 1, 8) {
+			// a melt whose request or response gets lost (the wallet sees a connection error and keeps
+			// the proofs as pending), then Melt is called again for the same quote
+			w := ww.pickWallet()
+			fk := []string{"resploss", "reqloss"}[T.Choose("meltretry.kind", 2)]
+			if ww.faultOp(w, "melt", 1+T.Choose("meltretry.k", 4), fk) {
+				rc.S.Probe("c08_melt_fault_then_retry")
+			}
+			if qs := ww.PendQ[w]; len(qs) > 0 {
+				qid := qs[len(qs)-1]
+				ww.op("w.remelt after lost message")
+				ww.W.WalletOp(w, ww.name("remelt."+w), nil, func(wl *wallet.Wallet) { wl.Melt(qid) })
 			}
 		} else if T.Chance("restore", 1, 8) {
 			// sometimes the restored wallet (whose proofs carry no DLEQ) takes over and continues
